@@ -33,6 +33,15 @@ def unit_flags(unit_dir):
     return []
 
 
+def unit_rustc_flags(unit_dir):
+    for ln in open(os.path.join(unit_dir, "unit.rs")):
+        s = ln.strip()
+        if s.startswith("//@ rustc-flags "):
+            import shlex
+            return shlex.split(s[len("//@ rustc-flags "):])
+    return []
+
+
 def template_fn_list(text, linemap):
     out = []
     for f in verus.fn_intervals(text):
@@ -287,9 +296,10 @@ def run_unit(name, tier="quick", use_cache=True, canary=True, repo=None):
     # ---------------------------------------------------------------- verus run
     rl = 40 if tier == "thorough" else None
     xflags = unit_flags(unit_dir)
+    rflags = unit_rustc_flags(unit_dir)
     for fl in xflags:
         res["trusted_base"].append("verus flag %s (DESIGN.md section 7)" % fl)
-    vr = verus.run(gen, rlimit=rl, use_cache=use_cache and tier != "thorough", extra=xflags)
+    vr = verus.run(gen, rlimit=rl, use_cache=use_cache and tier != "thorough", extra=xflags, rustc_extra=rflags)
     res["verus"] = {"cmd": vr["cmd"], "wall_s": vr["wall_s"], "cached": vr["cached"], "rc": vr["rc"]}
     if vr["timeout"] or vr["results"] is None:
         res["status"] = "undecided"
@@ -444,7 +454,7 @@ def run_unit(name, tier="quick", use_cache=True, canary=True, repo=None):
             return res
         from concurrent.futures import ThreadPoolExecutor
         with ThreadPoolExecutor(max_workers=min(8, max(1, len(jobs)))) as ex:
-            outs = list(ex.map(lambda j: verus.run(j[0], use_cache=use_cache, multiple_errors=200, extra=xflags), jobs))
+            outs = list(ex.map(lambda j: verus.run(j[0], use_cache=use_cache, multiple_errors=200, extra=xflags, rustc_extra=rflags), jobs))
         hit = set()
         cwall = 0.0
         for (cgen, ctext, clinemap, lv), cr in zip(jobs, outs):
